@@ -8,6 +8,7 @@ package main
 
 import (
 	"bufio"
+	"encoding/json"
 	"flag"
 	"fmt"
 	"os"
@@ -109,6 +110,17 @@ func main() {
 			n = 8
 		}
 		os.Exit(harness.Selftest(ps, seed, n))
+	case "plans":
+		// prints the enumerated plans of a fault-enumeration property, one JSON object per line
+		p := harness.Lookup(*prop)
+		if p == nil || p.Enumerate == nil {
+			os.Exit(2)
+		}
+		for _, pl := range p.Enumerate(*tier, seed) {
+			pl.Prop = p.ID
+			b, _ := json.Marshal(pl)
+			fmt.Println(string(b))
+		}
 	case "execplan":
 		os.Exit(harness.ExecPlanFile(*file))
 	case "replay":
